@@ -64,7 +64,13 @@ pub fn check(h: &FHistory, ex: &FExec, obs: &mut Obs) -> Vec<Violation> {
                         out.push(v("flush-some|queue-empty".into(), format!("op #{}: flush returned a segment with nothing queued", i)));
                     }
                     let mut scratch = Obs::default();
-                    let (_c2, frag) = super::c02::check_segment(bytes, &mut scratch);
+                    let (c2, frag) = super::c02::check_segment(bytes, &mut scratch);
+                    // the samples are located inside the segment: its boxes (moof, mdat) must
+                    // tile it exactly, or a reader cannot even find the run
+                    if let Some(t) = c2.iter().find(|x| x.sig.contains("|tiling|") || x.sig.contains("|top|")) {
+                        let rule: String = t.sig.chars().filter(|c| !c.is_ascii_digit()).collect();
+                        out.push(v(format!("segment-extent|{}", rule.replace("C02|", "")), format!("op #{}: {}", i, t.detail)));
+                    }
                     if frag.sequence_number != next_seq {
                         out.push(v("sequence-number".into(), format!("op #{}: mfhd sequence number {} but this is segment #{} emitted", i, frag.sequence_number, next_seq)));
                     }
